@@ -415,6 +415,8 @@ CaseResult run_run(Tape &t)
   int api = (int) t.weighted({ 4, 3, 3 });   // 0 reproc_run_ex, 1 reproc_run, 2 reproc::run
   int failure = (int) t.weighted({ 6, 1, 1, 1, 1 });  // 0 none, 1 missing program, 2 sink fails, 3 deadline, 4 fork option
   bool err_piped = t.coin();
+  // reproc_run_ex with sinks that throw everything away: the output still has to be read for the child to finish
+  bool null_sinks = api == 0 && failure != 2 && t.chance(1, 3);
   long sleep_ms = failure == 3 ? 4000 : 0;
   std::string a2 = std::to_string(out_n), a3 = std::to_string(err_n), a6 = std::to_string(code), a7 = std::to_string(sleep_ms);
   std::string prog = failure == 1 ? fw::case_dir() + "/no-such-program" : pup.exe();
@@ -434,10 +436,11 @@ CaseResult run_run(Tape &t)
   }
   static const char *an[] = { "reproc_run_ex", "reproc_run", "reproc::run" };
   static const char *fn[] = { "none", "missing program", "sink fails", "deadline expires", "fork option" };
-  res.describe = J().kv("api", an[api]).kv("stdout_bytes", (unsigned long long) out_n).kv("stderr_bytes", (unsigned long long) err_n).kv("stderr_piped", err_piped).kv("exit_code", code).kv("failure", fn[failure]).str();
+  res.describe = J().kv("api", an[api]).kv("stdout_bytes", (unsigned long long) out_n).kv("stderr_bytes", (unsigned long long) err_n).kv("stderr_piped", err_piped).kv("exit_code", code).kv("failure", fn[failure]).kv("null_sinks", null_sinks).str();
   res.cls("run");
+  if (null_sinks) res.cls(out_n + err_n > 65536 ? "run-null-sinks-output-exceeds-pipe" : "run-null-sinks");
   res.cls(std::string("run:") + an[api]);
-  res.hash = mix(mix(out_n, err_n * 8 + (uint64_t) api), (uint64_t) code << 8 | (uint64_t) failure << 1 | err_piped);
+  res.hash = mix(mix(out_n, err_n * 8 + (uint64_t) api), (uint64_t) code << 8 | (uint64_t) failure << 1 | err_piped | (uint64_t) null_sinks << 20);
   res.nontrivial = failure != 0 || (out_n > 0 && err_n > 0 && err_piped);
   if (failure) res.cls("run-error-path");
 
@@ -446,6 +449,10 @@ CaseResult run_run(Tape &t)
   SinkCtx octx = { 0 }, ectx = { 1 };
   if (api == 0) {
     reproc_sink so = { c_sink, &octx }, se = { c_sink, &ectx };
+    if (null_sinks) {
+      so = REPROC_SINK_NULL;
+      se = t.coin() ? REPROC_SINK_NULL : reproc_sink_discard();
+    }
     r = reproc_run_ex(argv, opt, so, se);
   } else if (api == 1) {
     // reproc_run: sets the parent redirect unless discard/file/path is set: keep our output off the worker's log
@@ -480,7 +487,7 @@ CaseResult run_run(Tape &t)
   switch (failure) {
     case 0:
       if (r != code) fail("run-status", "the child exited with " + std::to_string(code) + ", run returned " + std::to_string(r));
-      if (api != 1 && res.kind == CaseResult::PASS) {
+      if (api != 1 && !null_sinks && res.kind == CaseResult::PASS) {
         if (rec.got[1] != out_n) fail("run-data", "stdout sink received " + std::to_string(rec.got[1]) + " of " + std::to_string(out_n) + " bytes");
         if (err_piped && rec.got[2] != err_n) fail("run-data", "stderr sink received " + std::to_string(rec.got[2]) + " of " + std::to_string(err_n) + " bytes");
         for (auto &c : rec.calls)
